@@ -17,7 +17,7 @@
 (***************************************************************************)
 EXTENDS Extend, TLC
 
-CONSTANTS T, MaxDist, Rad2, Lvs, Bias, Seeded, TSet, MaxCalls, Worlds, Problems,
+CONSTANTS T, MaxDist, Rad2, Lvs, Bias, Seeded, TSet, MaxCalls, Worlds, Problems, Region,
           ValidateRoots, RestoreRng,
           RewireStrict      \* TRUE: rewire only when strictly cheaper (pinned code); FALSE = the
                             \* "<=" mutant, kept to show C15 is not vacuous
@@ -129,7 +129,7 @@ SortedSeq(S) ==
 Iterate(kind, q, near) ==
   /\ pc = "loop" /\ now <= deadline
   /\ kind \in Kinds
-  /\ q \in (IF kind = "g" THEN probs[pd].goal ELSE Pts(T))
+  /\ q \in (IF kind = "g" THEN probs[pd].goal ELSE Region)
   /\ near \in ArgMin(T, tree, q)
   /\ LET from == tree[near].s
          qnew == Steer(T, from, q, MaxDist)
@@ -189,6 +189,14 @@ C03_LinksCovered ==
 C03_PathFollowsLinks ==
   IsOk => \A k \in 1 .. (Len(res.path) - 1) :
             \E i \in 2 .. Len(tree) : tree[i].s = res.path[k + 1] /\ tree[tree[i].p].s = res.path[k]
+\* (a zero-arity constant definition: TLC evaluates it once)
+RegionConvex == Convex(T, Region)
+C04_InRegion ==
+  (RegionConvex /\ pd # 0 /\ probs[pd].start \in Region /\ probs[pd].goal \subseteq Region)
+     => \A i \in 1 .. Len(tree) : tree[i].s \in Region
+\* witness (expected violated when Region is not convex): the abstract form of the SO(2) seam defect
+W_AlwaysInRegion ==
+  (pd # 0 /\ probs[pd].start \in Region /\ probs[pd].goal \subseteq Region) => \A i \in 1 .. Len(tree) : tree[i].s \in Region
 C05_Step == \A i \in 2 .. Len(tree) : 2 * D(T, tree[tree[i].p].s, tree[i].s) <= Bound2
 C06_OkImpliesReachable == IsOk => Last(res.path) \in ReachFrom(T, valid, {probs[pd].start})
 C07_Provenance == Seeded => src # "os"
